@@ -57,6 +57,13 @@ pub struct Case {
     pub hashed: Option<PrfIn>,
     /// run at the CTAP2 level (assertions only; salts are taken from `hashed`)
     pub ctap: bool,
+    /// the registration also requests credProps (client level)
+    #[serde(default)]
+    pub cred_props: bool,
+    /// what the user-validation method advertises about verification: 0 configured, 1 present but not configured,
+    /// 2 absent -- what it *reports* for a ceremony is `verified` all the same
+    #[serde(default)]
+    pub uv_cap: u8,
 }
 
 const UNDECODABLE: [&str; 5] = ["!!!", "a", "abc def", "ab$d", "====="];
@@ -227,7 +234,11 @@ pub fn check(ctx: &mut Ctx, case: &Case) -> Result<(), String> {
     let creds = held(case);
     let n = creds.len();
     let store = RefStore::with(Disc::Full, creds.clone());
-    let script = if case.verified { UvScript::verified() } else { UvScript::present_only() };
+    let mut script = if case.verified { UvScript::verified() } else { UvScript::present_only() };
+    script.verification_enabled = [Some(true), Some(false), None][case.uv_cap as usize % 3];
+    if case.uv_cap % 3 != 0 {
+        ctx.class(&format!("verification capability advertised: {:?}, verification reported: {}", script.verification_enabled, case.verified));
+    }
     let uv = ScriptedUv::new(script);
     let cfg = AuthCfg { hmac: case.hmac, ..Default::default() };
     let auth = cer::build_authenticator(store.clone(), uv.clone(), &cfg);
@@ -246,7 +257,7 @@ pub fn check(ctx: &mut Ctx, case: &Case) -> Result<(), String> {
         return check_ctap(ctx, case, auth, store, &creds, allow_ids);
     }
 
-    let ext = (case.prf.is_some() || case.hashed.is_some()).then(|| AuthenticationExtensionsClientInputs { cred_props: None, prf: case.prf.as_ref().map(|p| to_lib(p, n)), prf_already_hashed: case.hashed.as_ref().map(|p| to_lib(p, n)) });
+    let ext = (case.prf.is_some() || case.hashed.is_some()).then(|| AuthenticationExtensionsClientInputs { cred_props: (case.cred_props && case.register).then_some(true), prf: case.prf.as_ref().map(|p| to_lib(p, n)), prf_already_hashed: case.hashed.as_ref().map(|p| to_lib(p, n)) });
     let mut client = Client::new_with_custom_tld_provider(auth, HProvider::new(ProviderKind::Default));
     let bad = eff.map(|e| malformed(case, e, hashed_mode, allow_ids.as_deref())).unwrap_or_default();
     let reached = |store: &RefStore, uv: &ScriptedUv| -> Option<String> {
@@ -382,12 +393,17 @@ pub fn check(ctx: &mut Ctx, case: &Case) -> Result<(), String> {
                     (None, None) => return Err("PRF results although no input applies to the credential used".into()),
                 };
                 let s1 = salt(hashed_mode, &sel.first).ok_or("unreachable: malformed first")?;
-                let which = check_result("first PRF result", &results.first, used, &s1, uv_flag, true)?;
+                // whether the user was verified is what the validation step reported for this ceremony (the UV bit has to agree: C04)
+                let verified_now = case.verified;
+                if verified_now != uv_flag {
+                    ctx.measure("UV bit differs from what the validation step reported (C04's matter)", 1);
+                }
+                let which = check_result("first PRF result", &results.first, used, &s1, verified_now, true)?;
                 ctx.class(&format!("assert/secret-{which}"));
                 match (&results.second, &sel.second) {
                     (Some(r2), Some(i2)) => {
                         let s2 = salt(hashed_mode, i2).ok_or("unreachable: malformed second")?;
-                        check_result("second PRF result", r2, used, &s2, uv_flag, true)?;
+                        check_result("second PRF result", r2, used, &s2, verified_now, true)?;
                     }
                     (Some(_), None) => return Err("a second PRF result without a second input".into()),
                     (None, Some(_)) => ctx.measure("omitted_second_results(measured)", 1),
@@ -521,9 +537,11 @@ fn check_ctap(ctx: &mut Ctx, case: &Case, mut auth: passkey_authenticator::Authe
     let flags = resp.auth_data.to_vec()[32];
     let uv_flag = flags & UV != 0;
     let sel = by_cred.as_ref().and_then(|m| m.iter().find(|(k, _)| k.as_slice() == used_id.as_slice()).map(|(_, v)| v.clone())).or(h.eval.as_ref().map(conv)).ok_or("results although no input applies")?;
-    check_result("first PRF result (CTAP)", &out.results.first, &used, &sel.first, uv_flag, true)?;
+    let _ = uv_flag;
+    let verified_now = case.verified;
+    check_result("first PRF result (CTAP)", &out.results.first, &used, &sel.first, verified_now, true)?;
     if let (Some(r2), Some(s2)) = (&out.results.second, &sel.second) {
-        check_result("second PRF result (CTAP)", r2, &used, s2, uv_flag, true)?;
+        check_result("second PRF result (CTAP)", r2, &used, s2, verified_now, true)?;
     } else if out.results.second.is_some() {
         return Err("a second PRF result without a second salt".into());
     }
@@ -567,7 +585,11 @@ fn strategy() -> impl Strategy<Value = Case> {
             proptest::option::weighted(0.6, prf_in(false, register)),
             proptest::option::weighted(0.45, prf_in(true, register)),
         )
-            .prop_map(move |(hmac, verified, uv_req, creds, allow, prf, hashed)| Case { hmac, verified, uv_req, register: register && !ctap, creds, allow, prf, hashed, ctap: ctap && !register })
+            .prop_map(move |(hmac, verified, uv_req, creds, allow, prf, hashed)| {
+                let cred_props = uv_req % 5 < 2;
+                let uv_cap = if creds.len() % 2 == 0 { (uv_req / 5) % 3 } else { 0 };
+                Case { hmac, verified, uv_req, register: register && !ctap, creds, allow, prf, hashed, ctap: ctap && !register, cred_props, uv_cap }
+            })
     })
 }
 
